@@ -22,11 +22,13 @@ PROBES = ['state_compressed_gt57', 'cookie_b64_gt76', 'token_compressed_gt57',
           'cookie_loss', 'expand_all', 'collapse_all', 'nonascii_id',
           'astral_id', 'int_id', 'same_id_in_two_subtrees', 'stale_undefined',
           'assume_children_leaf_expanded', 'codec_case', 'depth_ge_4',
-          'two_expanded_siblings', 'state_json_gt32k']
+          'two_expanded_siblings', 'state_json_gt32k',
+          'leaf_without_branches_method']
 RULE = ('seeded trees (1..40 nodes, about one in a hundred with 400-600 nodes '
         'and 30-character non-ASCII ids; sometimes ids that collide when joined with "/"; depth <= 6, ids of 1..30 chars over '
         'ASCII / Latin-1 / BMP / astral alphabets or ints, ids unique among '
-        'siblings only) x tag options x histories of 1..40 browser actions '
+        'siblings only; in some trees part of the leaves are plain content '
+        'objects without any branches method) x tag options x histories of 1..40 browser actions '
         '(click i-th link, expand_all, collapse_all, reload; faults: resend, '
         'stale link from an older page, lost cookie), plus direct codec round '
         'trips of synthetic states up to several kB.  Non-trivial: a history '
@@ -69,6 +71,29 @@ class Node:
         return list(self.kids)
 
     kids_m = tpValues
+
+
+class BareNode:
+    """a plain content object: it has an id but no branches method at all
+    (the tag supports such leaves)"""
+
+    kids = ()
+
+    def __init__(self, idx, tid, kids=()):
+        self.idx, self.tid = idx, tid
+        self.skey = idx
+
+    def tpId(self):
+        return self.tid
+
+    @property
+    def myid(self):
+        return self.tid
+
+
+class BareNodeOtherId(BareNode):
+    def tpId(self):
+        return 'not-the-id'
 
 
 class NodeOtherId(Node):
@@ -218,12 +243,24 @@ def gen_case(seed, tier):
         hist.append(op)
     if huge:
         hist = [{'op': 'expand_all'}, {'op': 'reload'}] + hist[:3]
-    return {'kind': 'sim', 'tree': tree, 'opts': opts, 'history': hist}
+    bare = []
+    if r.random() < 0.3:
+        # some leaves are plain content objects without a branches method
+        def leaves(n):
+            if not n[2]:
+                yield n[0]
+            for k_ in n[2]:
+                yield from leaves(k_)
+        bare = [i for i in leaves(tree) if i != tree[0] and r.random() < 0.5]
+    return {'kind': 'sim', 'tree': tree, 'opts': opts, 'history': hist,
+            'bare': bare}
 
 
-def build(tree, cls=Node):
+def build(tree, cls=Node, bare=(), bare_cls=BareNode):
     idx, tid, kids = tree
-    return cls(idx, tid, [build(k, cls) for k in kids])
+    if not kids and idx in bare:
+        return bare_cls(idx, tid)
+    return cls(idx, tid, [build(k, cls, bare, bare_cls) for k in kids])
 
 
 def template_src(opts):
@@ -370,8 +407,12 @@ def run_case(case):
 
     from DocumentTemplate import HTML
     import json
-    root = build(case['tree'], NodeOtherId if case['opts'].get('id')
-                 else Node)
+    other = case['opts'].get('id')
+    root = build(case['tree'], NodeOtherId if other else Node,
+                 set(case.get('bare', ())),
+                 BareNodeOtherId if other else BareNode)
+    if case.get('bare'):
+        probe('leaf_without_branches_method')
     opts = case['opts']
     byidx = {}
 
@@ -640,6 +681,11 @@ def shrink(case):
                 c = copy.deepcopy(case)
                 del c['history'][i][k]
                 yield c
+    if case.get('bare'):
+        for i in range(len(case['bare'])):
+            c = copy.deepcopy(case)
+            del c['bare'][i]
+            yield c
     for k in list(case['opts']):
         if k != 'src':
             c = copy.deepcopy(case)
